@@ -43,6 +43,8 @@ type ProcSpec struct {
 	Join    map[string]string   `json:"join,omitempty"` // in-port -> separator ({i:x|join:SEP})
 	Barrier string              `json:"barrier,omitempty"`
 	NoRead  bool                `json:"noread,omitempty"` // body does not read its inputs
+	WriteIdiom bool             `json:"writeidiom,omitempty"`
+	CmdSuffix  string           `json:"cmdsuffix,omitempty"`
 }
 
 type Edge struct {
@@ -162,7 +164,7 @@ func cmdPattern(p *ProcSpec) string {
 	for _, q := range p.Params {
 		parts = append(parts, q+"={p:"+q+"}")
 	}
-	return strings.Join(parts, " ")
+	return strings.Join(parts, " ") + p.CmdSuffix
 }
 
 // funcPattern of a "func" process (the command is never executed, it only declares ports)
@@ -181,7 +183,7 @@ func funcPattern(p *ProcSpec) string {
 	for _, q := range p.Params {
 		parts = append(parts, "{p:"+q+"}")
 	}
-	return strings.Join(parts, " ")
+	return strings.Join(parts, " ") + p.CmdSuffix
 }
 
 func (w *WSpec) build(env *Env) *built {
